@@ -11,6 +11,7 @@ contracts; they are the work list for strengthening contracts (DESIGN 8.8).
   python3-vt -m pyvc.mutants canaries [--props C03,C05] [--n N]   re-run a sample of mutants recorded as killed (thorough tier)
 """
 import argparse
+import subprocess
 import ast
 import copy
 import hashlib
@@ -434,6 +435,75 @@ def canaries(a):
     return 3 if bad else 0
 
 
+def _full_worker(task):
+    file, qual, site_id, props = task
+    src = open(os.path.join(REPO, file)).read()
+    msrc, desc = make_mutant_source(src, qual, site_id)
+    if msrc is None:
+        return (file, qual, site_id, 'invalid', None)
+    d = scratch_copy()
+    try:
+        open(os.path.join(d, file), 'w').write(msrc)
+        verdict, by = 'survived', None
+        for p in props:
+            r = subprocess.run([sys.executable, '-m', 'pyvc.check', p, '--no-evidence'], cwd=ROOT, capture_output=True, text=True,
+                               env=dict(os.environ, PYVC_REPO=d, PYVC_JOBS=os.environ.get('PYVC_MUT_JOBS', '5')), timeout=3600)
+            if r.returncode == 1:
+                first = [l for l in r.stdout.splitlines() if l.startswith('VIOLATION')][:1]
+                return (file, qual, site_id, 'killed', dict(harness='(full check of %s)' % p,
+                                                             obligation=(first[0].split('obligation=')[-1][:200] if first else ''), n=1))
+            if r.returncode in (2, 3) and verdict == 'survived':
+                verdict, by = 'noticed', dict(harness='(full check of %s)' % p, why='exit %d' % r.returncode)
+        return (file, qual, site_id, verdict, by)
+    finally:
+        shutil.rmtree(d, ignore_errors=True)
+
+
+def fullcheck(a):
+    """Survivors of the sampled run (each mutant was only tried against a capped selection of harnesses) are re-tried against the
+    COMPLETE quick check of every property that has a harness executing the mutated function."""
+    idx = load_index()
+    path = a.out or os.path.join(ROOT, 'mutation', 'results.json')
+    doc = json.load(open(path))
+    users = {}
+    for hn, h in idx['harnesses'].items():
+        for q in h['executed']:
+            users.setdefault(q, set()).update(h['props'])
+    order = ['C13', 'C14', 'C15', 'C16', 'C17', 'C18', 'C19', 'C20', 'C07', 'C06', 'C11', 'C05', 'C09', 'C03', 'C04', 'C08', 'C10', 'C12', 'C02', 'C01']
+    tasks = []
+    for r in doc['mutants']:
+        if r['status'] != 'survived' or (a.files and not re.search(a.files, r['file'])):
+            continue
+        props = [p for p in order if p in users.get('%s::%s' % (r['file'], r['function']), ())]
+        if a.props:
+            props = [p for p in props if p in a.props.split(',')]
+        if props:
+            tasks.append((r['file'], r['function'], r['site'], props))
+    print('%d surviving mutants to re-try against full checks' % len(tasks), flush=True)
+    ctx = mp.get_context('fork')
+    done = {}
+    with ctx.Pool(a.jobs) as pool:
+        for i, (f, q, sid, st, by) in enumerate(pool.imap_unordered(_full_worker, tasks, chunksize=1)):
+            done[(f, q, sid)] = (st, by)
+            if st != 'killed':
+                print('%-8s %s::%s %s' % (st, f, q, sid), flush=True)
+    for r in doc['mutants']:
+        k = (r['file'], r['function'], r['site'])
+        if k in done and done[k][0] in ('killed', 'noticed'):
+            r['status'] = done[k][0]
+            if done[k][0] == 'killed':
+                r['killed_by'] = done[k][1]
+            else:
+                r['noticed'] = done[k][1]
+    s2 = {}
+    for r in doc['mutants']:
+        s2[r['status']] = s2.get(r['status'], 0) + 1
+    doc['summary'] = s2
+    json.dump(doc, open(path, 'w'), indent=0)
+    print('summary', s2)
+    return 0
+
+
 def main(argv=None):
     ap = argparse.ArgumentParser()
     ap.add_argument('cmd')
@@ -458,6 +528,8 @@ def main(argv=None):
         return run(a)
     if a.cmd == 'canaries':
         return canaries(a)
+    if a.cmd == 'fullcheck':
+        return fullcheck(a)
     ap.print_help()
     return 2
 
